@@ -6,7 +6,7 @@ demo must FAIL; (3) run ./check <prop> with VERIF_REPO=<worktree> (expected exit
 import subprocess, sys, os, argparse, json, time
 ap = argparse.ArgumentParser(); ap.add_argument('prop'); ap.add_argument('wt'); ap.add_argument('patch'); ap.add_argument('demo')
 ap.add_argument('--tests', default=''); ap.add_argument('--jobs', default=''); ap.add_argument('--out', default=None); ap.add_argument('--header-only', action='store_true')
-ap.add_argument('--tier', default='quick'); ap.add_argument('--skip-clean', action='store_true')
+ap.add_argument('--tier', default='quick'); ap.add_argument('--skip-clean', action='store_true'); ap.add_argument('--std', default='c++17')
 o = ap.parse_args()
 def sh(cmd, **kw):
     r = subprocess.run(cmd, shell=True, stdout=subprocess.PIPE, stderr=subprocess.STDOUT, text=True, **kw); return r.returncode, r.stdout
@@ -16,7 +16,7 @@ def build_lib():
     return sh('ninja -C %s -j 6 photon_shared 2>&1 | tail -3' % B)
 def build_demo(tag):
     exe = '/tmp/seed_demo_%s_%s' % (o.prop, tag)
-    rc, out = sh('g++ -std=c++17 -O1 -w -I%s/include %s -o %s -L%s/output -lphoton -Wl,-rpath,%s/output -lpthread 2>&1 | tail -5' % (o.wt, o.demo, exe, B, B))
+    rc, out = sh('g++ -std=%s -O1 -w -I%s/include %s -o %s -L%s/output -lphoton -Wl,-rpath,%s/output -lpthread 2>&1 | tail -5' % (o.std, o.wt, o.demo, exe, B, B))
     return exe, out
 sh('git -C %s checkout -- .' % o.wt)
 if not o.skip_clean:
